@@ -344,6 +344,31 @@ class Raw(S):
         return self.sx
 
 
+class Empty(S):
+    """`；` written n times on a line of its own: n empty statements (the parser gives them no line: 0)"""
+
+    def __init__(self, n=1):
+        self.n = n
+
+    def emit(self, r, indent):
+        r.w('；' * self.n)
+        return ' '.join(['(empty 0)'] * self.n)
+
+
+class Semi(S):
+    """a SIMPLE statement (one that ends on the line it starts on) with `；` written before and / or after it on the same line:
+    every `；` is an empty statement of the same block"""
+
+    def __init__(self, s, before=0, after=1):
+        self.s, self.before, self.after = s, before, after
+
+    def emit(self, r, indent):
+        r.w('；' * self.before)
+        x = self.s.emit(r, indent)
+        r.w('；' * self.after)
+        return ' '.join(['(empty 0)'] * self.before + [x] + ['(empty 0)'] * self.after)
+
+
 class ExprS(S):
     def __init__(self, e):
         self.e = e
